@@ -800,7 +800,17 @@ fn odb_configs(fx: &Fixture, k: usize) -> Vec<(PackCache, ObjCache)> {
     v
 }
 
+extern "C" {
+    fn setrlimit(resource: i32, rlim: *const [u64; 2]) -> i32;
+}
+
 pub fn run(run: &'static Run) {
+    // A wrong delta base can make the decoder ask for a multi-gigabyte buffer. Cap the address space so that such a request
+    // fails at once (error or abort, both reported: abort via the driver's in-flight attribution) instead of waking the OOM killer.
+    unsafe {
+        let lim: [u64; 2] = [24 << 30, 24 << 30];
+        setrlimit(9 /* RLIMIT_AS */, &lim);
+    }
     let fxs: &'static Vec<Fixture> = Box::leak(Box::new(build_fixtures(run)));
     let g: &'static Global = Box::leak(Box::new(Global {
         states: std::array::from_fn(|_| Mutex::new(Default::default())),
@@ -917,8 +927,9 @@ pub fn run(run: &'static Run) {
     }
     run.cov("fixture_x_configuration_pairs_full_matrix", n_cfg.0);
     run.cov("fixture_x_configuration_pairs_reduced_matrix", n_cfg.1);
-    run.sub("reads", |emit| gen(false, k, 1..=max_len, emit), |c: &Case| eval(run, fxs, g, c));
-    run.sub("reads-long", |emit| gen(true, k_long, max_len + 1..=max_len + 1, emit), |c: &Case| eval(run, fxs, g, c));
+    let opts = || vkit::Opts::default().isolate();
+    run.sub_with("reads", opts(), |emit| gen(false, k, 1..=max_len, emit), |c: &Case| eval(run, fxs, g, c));
+    run.sub_with("reads-long", opts(), |emit| gen(true, k_long, max_len + 1..=max_len + 1, emit), |c: &Case| eval(run, fxs, g, c));
 
     for shard in &g.states {
         run.mc_states_bulk(shard.lock().unwrap().iter().copied());
